@@ -167,7 +167,7 @@ def uniform_bits(alpha):
 # ------------------------------------------------------------------ objects
 def mk_counts(lm, alpha, rows):
     le = letters(alpha)
-    return lm.CountMatrix({le[j]: [r[j] for r in rows] for j in range(len(le))}, protein=(alpha == "protein"))
+    return lm.CountMatrix({le[j]: [r[j] for r in rows] for j in range(len(le))}, **common.pkw(alpha))
 
 
 def mk_pssm(lm, alpha, spec):
@@ -175,7 +175,7 @@ def mk_pssm(lm, alpha, spec):
     le = letters(alpha)
     d = {le[j]: [bits_f32(r[j]) for r in rows] for j in range(len(le))}
     bgd = None if bg is None else {le[j]: bits_f32(bg[j]) for j in range(len(le))}
-    return lm.ScoringMatrix(d, bgd, protein=(alpha == "protein"))
+    return lm.ScoringMatrix(d, bgd, **common.pkw(alpha))
 
 
 def pssm_tokens(spec):
@@ -192,7 +192,7 @@ def parse_pssm(tk, alpha):
 
 
 def mk_striped(lm, alpha, syms):
-    return lm.stripe("".join(letters(alpha)[s] for s in syms), protein=(alpha == "protein"))
+    return lm.stripe("".join(letters(alpha)[s] for s in syms), **common.pkw(alpha))
 
 
 def rows_bits(m):
@@ -738,7 +738,7 @@ def exec_create(cx, head, tail):
     alpha, n = head[2], int(head[3])
     items = head[4:4 + n]
     objs = [7 if t == "#" else (b"" if t == "-" else bytes.fromhex(t)).decode("utf-8") for t in items]
-    g = guarded(lambda: cx.lm.create(objs, protein=(alpha == "protein"), name="m"))
+    g = guarded(lambda: cx.lm.create(objs, name="m", **common.pkw(alpha)))
     errs, labels = [], []
     le = letters(alpha)
     # definition of the outcome: items are examined in order
@@ -800,11 +800,11 @@ def exec_stripe(cx, head, tail):
     le = letters(alpha)
 
     def run():
-        s = cx.lm.stripe(text, protein=(alpha == "protein"))
+        s = cx.lm.stripe(text, **common.pkw(alpha))
         mv = memoryview(s)
         cols = mv.tolist()
         R = mv.shape[1]
-        e = cx.lm.EncodedSequence(text, protein=(alpha == "protein"))
+        e = cx.lm.EncodedSequence(text, **common.pkw(alpha))
         return R, [cols[c][r] for r in range(R) for c in range(32)], str(e), [e[i] for i in range(len(e))]
 
     g = guarded(run)
@@ -1098,7 +1098,7 @@ def exec_cminit(cx, head, tail):
             continue
         d[le[j]] = 5 if c == "#" else tuple(("x" if e == "x" else int(e)) for e in c) if j % 2 else [("x" if e == "x" else int(e)) for e in c]
     d["z"] = [1, 2, 3, 4, 5, 6, 7]      # keys that name no symbol are ignored
-    g = guarded(lambda: (lambda m: [list(m[i]) for i in range(len(m))])(cx.lm.CountMatrix(d, protein=(alpha == "protein"))))
+    g = guarded(lambda: (lambda m: [list(m[i]) for i in range(len(m))])(cx.lm.CountMatrix(d, **common.pkw(alpha))))
     errs = []
     # definition
     present = [(j, c) for j, c in enumerate(cols) if c != "-"]
@@ -1157,7 +1157,7 @@ def exec_sminit(cx, head, tail):
         if c == "-":
             continue
         d[le[j]] = (1.0, 2.0) if c == "#" else [("x" if e == "x" else bits_f32(int(e))) for e in c]
-    g = guarded(lambda: rows_bits(cx.lm.ScoringMatrix(d, pyarg_object(bg), protein=(alpha == "protein"))))
+    g = guarded(lambda: rows_bits(cx.lm.ScoringMatrix(d, pyarg_object(bg), **common.pkw(alpha))))
     errs = []
     arr = pyarg_array(alpha, bg) if bg[0] == "d" else None
     expect, want, rows = None, None, None
@@ -1333,9 +1333,11 @@ def load_cases(rng, fmt, prot, data, cuts):
     if rng.chance(1, 3):
         out.append(f"c17load ? {rng.pick(list(LATE))} {hexs(fmt)} {prot} 0 | {hexs(data)} 0 -")
     if data and rng.chance(1, 4):
-        # the file repeated past the reader's buffer size, through a file object returning more than asked
+        # the file repeated past the reader's buffer size (read(n) then returns exactly n bytes): through
+        # io.BytesIO, a path, and a file object returning more than asked
         big = data * (9000 // len(data) + rng.range(1, 3))
         out.append(f"c17load ? greedy {hexs(fmt)} {prot} 0 | {hexs(big)} {rng.below(1 << 32)} -")
+        out.append(f"c17load ? {rng.pick(['binary', 'path'])} {hexs(fmt)} {prot} 0 | {hexs(big)} 0 -")
     return out
 
 
